@@ -136,7 +136,7 @@ pub fn write_jsonl_par<T: Serialize + Send + Sync>(
         .par_iter()
         .enumerate()
         .try_for_each(|(i, p)| -> Result<()> {
-            let start = i * chunk;
+            let start = (i * chunk).min(n);
             let end = ((i + 1) * chunk).min(n);
             #[cfg(feature = "verif-hooks")]
             crate::verif_hooks::on_shard("write_jsonl_par", i, start, end);
